@@ -5,13 +5,17 @@ from props.paths_base import env_of, worker_setup, run_impl, model_requests, shr
 
 ID = "C06"
 MODULE = "props.c06"
-THEOREM_MODULES = ["Vinegar.Theorems.C06"]
+THEOREM_MODULES = ["Vinegar.Theorems.C06", "Vinegar.Lemmas.PathsConstsTftp"]
 THEOREMS = [
     "Vinegar.C06.matches_iff",
     "Vinegar.C06.lookup_value_spec",
     "Vinegar.C06.lookup_call_spec",
     "Vinegar.C06.template_context_spec",
     "Vinegar.C06.tftp_parity",
+    "Vinegar.C06.c06Check_model",
+    "Vinegar.Paths.accepts_iff",
+    "Vinegar.Paths.tftp_keep_prefixes_val",
+    "Vinegar.Paths.sysIdKey_val",
 ]
 TRUSTED_BASE = P.TRUSTED_BASE
 ASSUMPTIONS = P.ASSUMPTIONS
